@@ -249,7 +249,97 @@ def run_cases(ctx, rng, ncases, maxdepth, sl, cases=None):
         sl.sample({"op": line, "observed": e})
 
 
+def _wrap_on(P, kinds, base):
+    """wrappers `kinds` (outermost first) on top of `base`; returns (top, layers outermost first)"""
+    layers, prob = [], base
+    for k in reversed(kinds):
+        if k[0] == "C":
+            prob = P.EvalCountingProblem(prob)
+        elif k[0] == "X":
+            prob = P.EvalCutoffProblem(prob, k[1])
+        elif k[0] == "P":
+            prob = P.PrecisionCutoffProblem(prob, k[1], k[2])
+        else:
+            prob = P.StatsGatheringProblem(prob)
+        layers.append(prob)
+    layers.reverse()
+    return prob, layers
+
+
+def _state_tokens(kinds, layers):
+    """current state of real wrapper objects as INPUT tokens of the model driver"""
+    out = []
+    for k, L in zip(kinds, layers):
+        n = L.n_evaluations
+        if k[0] == "C":
+            out.append(f"C {n}")
+        elif k[0] == "X":
+            out.append(f"X {n} {k[1]}")
+        elif k[0] == "P":
+            eta = "none" if L.ETA == np.inf else str(int(L.ETA))
+            out.append(f"P {n} {fr(k[1])} {fr(k[2])} {eta} {1 if L.hit_precision else 0}")
+        else:
+            out.append(f"S {n}")
+    return f"{len(kinds)} " + " ".join(out)
+
+
+def shared_inner(ctx, rng, ncases):
+    """two stacks that share their inner wrappers (what HMS builds: every deme puts its own counting wrapper
+    on the stack of its level; levels may share a counted problem): calls arrive through either top.  Each
+    call is checked on its own — the model is handed the state the real objects are in before the call and
+    must predict the value returned, whether the objective is invoked, and the state of every layer of the
+    path after it — so the wrappers' laws are checked for calls that bypass some of the layers."""
+    from pyhms.core import problem as P
+
+    sl = Slice("two-stacks-sharing-inner-wrappers(call-by-call from the real state)")
+    lines, metas = [], []
+    for _ in range(ncases):
+        ka, maximize, vals = gen_case(rng, 2)
+        kb, _, _ = gen_case(rng, 2)
+        kshared, _, _ = gen_case(rng, 2)
+        cur = [0.0]
+        calls = []
+
+        def obj(x, cur=cur, calls=calls):
+            calls.append(cur[0])
+            return cur[0]
+
+        base = P.FunctionProblem(obj, bounds=np.array([[-1.0, 1.0]]), maximize=maximize)
+        shared_top, shared_layers = _wrap_on(P, kshared, base)
+        top_a, la = _wrap_on(P, ka, shared_top)
+        top_b, lb = _wrap_on(P, kb, shared_top)
+        x = np.array([0.1])
+        desc = {"A": ka, "B": kb, "shared": kshared, "maximize": maximize, "values": vals}
+        for i, v in enumerate(vals):
+            use_a = bool(rng.random() < 0.5)
+            kinds = (ka if use_a else kb) + kshared
+            layers = (la if use_a else lb) + shared_layers
+            before_tok = _state_tokens(kinds, layers)
+            n_before = len(calls)
+            cur[0] = v  # what the objective returns if this call reaches it
+            ret = (top_a if use_a else top_b).evaluate(x)
+            invoked = len(calls) > n_before
+            lines.append(f"wrap {1 if maximize else 0} {before_tok} 1 {fit(v)}")
+            metas.append((f"{fit(ret)} {1 if invoked else 0} | " + state_str(kinds, layers), desc, i, "A" if use_a else "B", invoked))
+    got = run_driver(lines)
+    for line, g, (exp, desc, i, which, invoked) in zip(lines, got, metas):
+        sl.cases += 1
+        sl.count("through-" + which)
+        sl.count("forwarded" if invoked else "refused")
+        sl.nontrivial.add(hash(line))
+        if g != exp:
+            sl.disagreements.append({"op": line[:600], "impl": exp[:400], "model": g[:400], "desc": {k: str(v)[:200] for k, v in desc.items()}, "call": i})
+            sl.violations.append({"signature": "C16/shared-inner", "detail": f"call {i + 1} through stack {which}: the real wrappers end in [{exp}] but the laws give [{g}] (stacks A={desc['A']} B={desc['B']} over shared {desc['shared']}, maximize={desc['maximize']})", "replay": desc})
+    if lines:
+        sl.sample({"op": lines[0][:300], "model": got[0][:200]})
+    return sl
+
+
 def run(ctx):
+    return _run_linear(ctx) + [shared_inner(ctx, ctx.rng(5), ctx.size(400, 6000))]
+
+
+def _run_linear(ctx):
     sl = Slice("wrapper-stacks-call-by-call")
     run_cases(ctx, ctx.rng(1), ctx.size(3000, 40000), 4, sl)
     if ctx.thorough:
